@@ -564,27 +564,27 @@ func writeEvidence(prop string, pc *propCfg, tier string, seed uint64, agg worke
 		runWall = 0.001
 	}
 	cov := map[string]any{
-		"evaluations":          agg.Runs,
-		"distinct_nontrivial":  distinct,
-		"rule":                 pc.Rule,
-		"samples":              samples,
-		"simulated_runs":       agg.Runs,
-		"runs_per_hour":        int(float64(agg.Runs) / runWall * 3600),
-		"seed_ranges":          seedRanges,
-		"simulated_seconds":    float64(agg.SimNanos) / 1e9,
-		"scheduling_decisions": agg.Steps,
-		"context_switches":     agg.Switches,
-		"yield_points_passed":  agg.Yields,
-		"tasks_spawned":        agg.Tasks,
-		"nontrivial_runs":      agg.Nontrivial,
-		"faults_fired":         agg.Faults,
-		"reach_probes":         agg.Probes,
-		"strategy_mix":         agg.Strategies,
-		"budget_exhausted":     agg.Budget,
-		"components":           pc.Components,
-		"instrumentation":      b.report,
-		"known_findings":       known,
-		"exhaustive":           false,
+		"evaluations":                         agg.Runs,
+		"distinct_nontrivial":                 distinct,
+		"rule":                                pc.Rule,
+		"samples":                             samples,
+		"simulated_runs":                      agg.Runs,
+		"runs_per_hour":                       int(float64(agg.Runs) / runWall * 3600),
+		"seed_ranges":                         seedRanges,
+		"simulated_seconds":                   float64(agg.SimNanos) / 1e9,
+		"scheduling_decisions":                agg.Steps,
+		"context_switches":                    agg.Switches,
+		"yield_points_passed":                 agg.Yields,
+		"tasks_spawned":                       agg.Tasks,
+		"nontrivial_runs":                     agg.Nontrivial,
+		"faults_fired":                        agg.Faults,
+		"reach_probes":                        agg.Probes,
+		"strategy_mix":                        agg.Strategies,
+		"budget_exhausted":                    agg.Budget,
+		"components":                          pc.Components,
+		"instrumentation":                     b.report,
+		"known_findings":                      known,
+		"exhaustive":                          false,
 		"violations_of_other_properties_seen": agg.OtherProps,
 	}
 	ev := map[string]any{
